@@ -32,7 +32,7 @@ INCLUDES=(-I"$REPO/cpp/include" -I"$GEN_INC")
 LIBS=("$LIB" -lpthread -ldl -lm)
 
 echo "[build.sh] 2/2 compiling the harness"
-SAN_FLAGS=(-std=c++17 -g -O1 -fsanitize=address,undefined -fno-omit-frame-pointer)
+SAN_FLAGS=(-std=c++17 -g -O1 -fsanitize=address,undefined -fno-omit-frame-pointer -DTRY_CONST_SLICE_CONVERSION)
 if command -v clang++-14 >/dev/null 2>&1 &&
    clang++-14 "${SAN_FLAGS[@]}" "${INCLUDES[@]}" "$SRC" "${LIBS[@]}" -o "$EXE.tmp" 2>"$OUT/compile.log"; then
     mv -f "$EXE.tmp" "$EXE"
